@@ -18,16 +18,6 @@ import (
 	dg "verifharness/designgen"
 )
 
-// identifiers used by the generated encoders/decoders: a path/query/header/cookie
-// attribute with one of these names (after Goify) shadows or redeclares them
-var generatedLocals = map[string]bool{"err": true, "res": true, "req": true, "resp": true, "ctx": true, "p": true, "v": true, "r": true, "c": true,
-	"payload": true, "mux": true, "params": true, "ok": true, "val": true, "goa": true, "svc": true, "u": true, "strconv": true, "goahttp": true, "err2": true,
-	"body": true, "w": true, "s": true, "e": true, "result": true, "decoder": true, "encoder": true, "values": true, "header": true, "query": true}
-
-// the subset observed to break generated code on this tree (the others compile and are part of the covering set)
-var breakingLocals = map[string]bool{"err": true, "res": true, "req": true, "resp": true, "ctx": true, "p": true, "v": true, "r": true, "c": true,
-	"payload": true, "mux": true, "params": true, "ok": true, "val": true, "goa": true, "svc": true, "u": true, "strconv": true, "goahttp": true, "err2": true}
-
 type featureSet map[string]bool
 
 // sizedInt: integer primitives whose Go type is not `int` (an Enum written with Go int literals
@@ -116,6 +106,29 @@ func (w *walker) attr(a *dg.Attr, objDepth int, inCollection bool) {
 			w.f["collection-default"] = true
 		}
 	}
+	if v := a.V; v != nil && t.Kind == "prim" {
+		lo, hi := v.Min, v.Max
+		if v.ExclMin != nil {
+			lo = v.ExclMin
+		}
+		if v.ExclMax != nil {
+			hi = v.ExclMax
+		}
+		integer := strings.HasPrefix(t.Prim, "Int") || strings.HasPrefix(t.Prim, "UInt")
+		if integer && lo != nil && hi != nil && *hi-*lo > 0 && *hi-*lo < 1 {
+			w.f["int-bounds-less-than-one-apart"] = true
+		}
+		if t.Prim == "Int32" || t.Prim == "UInt32" {
+			for _, b := range []*float64{v.Min, v.Max, v.ExclMin, v.ExclMax} {
+				if b != nil && (*b > 4294967295 || *b < -2147483648 || (t.Prim == "Int32" && *b > 2147483647)) {
+					w.f["bound-outside-32-bit-range"] = true
+				}
+			}
+		}
+	}
+	if v := a.V; v != nil && t.Kind == "array" && v.MaxLen != nil && *v.MaxLen < 2 && v.MinLen == nil {
+		w.f["array-maxlength-below-two"] = true
+	}
 	if a.V != nil && len(a.V.Enum) > 0 && (t.Kind == "array" || t.Kind == "map" || (t.Kind == "prim" && t.Prim == "Bytes")) {
 		w.f["enum-on-collection-or-bytes"] = true
 	}
@@ -127,6 +140,9 @@ func (w *walker) attr(a *dg.Attr, objDepth int, inCollection bool) {
 		seen := map[string]string{}
 		for _, f := range t.Attrs {
 			w.name(f.Name)
+			if objDepth == 0 && identsKnown[identKey(codegen.Goify(f.Name, false), "body")] {
+				w.f["name-collides-with-generated-identifier"] = true
+			}
 			g := codegen.Goify(strings.SplitN(f.Name, ":", 2)[0], true)
 			if prev, ok := seen[g]; ok && prev != f.Name {
 				w.f["goify-collision-attributes"] = true
@@ -186,9 +202,6 @@ func (w *walker) resolveObject(a *dg.Attr) *dg.Type {
 
 func (w *walker) param(obj *dg.Type, prim *dg.Attr, e dg.MapEntry, loc string) {
 	cookie := loc == "cookie"
-	if generatedLocals[codegen.Goify(e.Attr, false)] && breakingLocals[codegen.Goify(e.Attr, false)] {
-		w.f["param-name-shadows-generated-identifier"] = true
-	}
 	var t *dg.Type
 	if obj != nil {
 		if f := fieldByName(obj, e.Attr); f != nil {
@@ -196,7 +209,8 @@ func (w *walker) param(obj *dg.Type, prim *dg.Attr, e dg.MapEntry, loc string) {
 			if f.A.Sec != nil && (f.A.Sec.Fn == "Username" || f.A.Sec.Fn == "Password") {
 				w.f["basic-auth-credential-mapped"] = true
 			}
-			if f.A.V != nil && f.A.V.MaxLen != nil && *f.A.V.MaxLen < 3 && t.Kind == "map" {
+			// the example length of a map parameter can be drawn as 0 (MinLength(0), or MaxLength below 3 alone)
+			if v := f.A.V; v != nil && t.Kind == "map" && ((v.MinLen != nil && *v.MinLen == 0) || (v.MinLen == nil && v.MaxLen != nil && *v.MaxLen < 3)) {
 				w.f["map-param-maxlength-below-3"] = true
 			}
 		}
@@ -206,6 +220,36 @@ func (w *walker) param(obj *dg.Type, prim *dg.Attr, e dg.MapEntry, loc string) {
 	if t == nil {
 		return
 	}
+	// the identifier stream's table: does this (name, location, type) break generated code today?
+	{
+		sfx := "_i"
+		if t.Kind == "prim" && t.Prim == "String" {
+			sfx = "_s"
+		}
+		kind := ""
+		switch {
+		case obj != nil && loc == "resp_header":
+			kind = "resphdr" + sfx
+		case obj != nil && loc == "cookie":
+			kind = "cookie_s"
+		case obj != nil && (loc == "path" || loc == "query" || loc == "header"):
+			kind = loc + sfx
+		case obj == nil && loc == "query":
+			kind = "primq" + sfx
+		case obj == nil && loc == "path":
+			kind = "primpath_s"
+		}
+		if kind != "" && identsKnown[identKey(codegen.Goify(e.Attr, false), kind)] {
+			w.f["param-name-shadows-generated-identifier"] = true
+		}
+	}
+	if loc == "resp_header" {
+		loc = "header"
+	}
+	if loc == "resp_cookie" {
+		loc = "cookie"
+	}
+	cookie = loc == "cookie"
 	if w.isAliasParam(t) {
 		w.f["alias-in-param"] = true
 	}
@@ -246,6 +290,9 @@ func designFeatures(d *dg.Design) featureSet {
 		w.types[ut.Name] = ut
 	}
 	for _, ut := range d.Types {
+		if identsKnown[identKey(ut.Name, "type")] {
+			w.f["name-collides-with-generated-identifier"] = true
+		}
 		w.name(ut.Name)
 		a := dg.Attr{T: ut.Base}
 		w.attr(&a, 0, false)
@@ -270,6 +317,19 @@ func designFeatures(d *dg.Design) featureSet {
 	}
 	for _, s := range d.Services {
 		w.name(s.Name)
+		if identsKnown[identKey(s.Name, "service")] {
+			w.f["name-collides-with-generated-identifier"] = true
+		}
+		for _, m := range s.Methods {
+			if identsKnown[identKey(m.Name, "method")] {
+				w.f["name-collides-with-generated-identifier"] = true
+			}
+			for _, e := range m.Errors {
+				if identsKnown[identKey(e.Name, "error")] {
+					w.f["name-collides-with-generated-identifier"] = true
+				}
+			}
+		}
 		seen := map[string]string{}
 		kindUsers := map[string]map[string]bool{} // scheme kind -> scheme names used by the service
 		errTypes := map[string]string{}
@@ -444,10 +504,10 @@ func designFeatures(d *dg.Design) featureSet {
 					w.f["tag-missing-attribute"] = true
 				}
 				for _, e := range r.Headers {
-					w.param(robj, m.Result, e, "header")
+					w.param(robj, m.Result, e, "resp_header")
 				}
 				for _, e := range r.Cookies {
-					w.param(robj, m.Result, e, "cookie")
+					w.param(robj, m.Result, e, "resp_cookie")
 				}
 			}
 			if len(h.Responses) == 0 {
@@ -476,6 +536,9 @@ var rules = []rule{
 	{"sized-int-enum-array-elements", "sized-int-enum-array-elements", []string{"gen-panic"}, nil, `reflect\.Set: value of type int is not assignable to type u?int(32|64)? @ expr\.\(\*Array\)\.MakeSlice`},
 	{"map-key-not-primitive-cli-example", "map-key-not-primitive", []string{"gen-panic"}, nil, `index out of range \[0\] with length 0 @ codegen/cli\.jsonExample`},
 	{"map-param-maxlength-cli-example", "map-param-maxlength-below-3", []string{"gen-panic"}, nil, `index out of range \[0\] with length 0 @ codegen/cli\.jsonExample`},
+	{"int-bounds-less-than-one-apart", "int-bounds-less-than-one-apart", []string{"gen-panic"}, nil, `integer divide by zero @ expr\.byMinMax`},
+	{"array-maxlength-below-two", "array-maxlength-below-two", []string{"gen-panic"}, nil, `makeslice: len out of range @ expr\.byLength`},
+	{"bound-outside-32-bit-range", "bound-outside-32-bit-range", []string{"build-error"}, nil, `truncated to u?int32|overflows u?int32`},
 	{"map-bool-or-float-key", "map-bool-or-float-key", []string{"gen-error"}, nil, `json: unsupported type: map\[(bool|float)`},
 	{"digit-led-name", "digit-led-name", []string{"gen-error"}, nil, `\.go:\d+:\d+: expected `},
 	{"default-string-needs-escaping", "default-string-needs-escaping", []string{"gen-error"}, nil, `cli\.go:\d+:\d+: (missing ',' in argument list|string literal not terminated|unknown escape)`},
@@ -506,8 +569,9 @@ var rules = []rule{
 	{"recursive-result-type", "recursive-result-type", []string{"build-error"}, []string{"redeclared", "undefined"}, `redeclared in this block|undefined: Validate`},
 	{"method-name-new-prefix", "method-name-new-prefix", []string{"build-error"}, []string{"redeclared", "type-mismatch"}, `New\w+ redeclared`},
 	{"multipart-example-import", "multipart-request", []string{"build-error"}, []string{"undefined"}, `^multipart\.go: undefined: `},
+	{"name-collides-with-generated-identifier", "name-collides-with-generated-identifier", []string{"build-error", "gen-error"}, nil, `\.go`},
 	{"param-name-shadows-generated-identifier", "param-name-shadows-generated-identifier", []string{"build-error"},
-		[]string{"redeclared", "type-mismatch", "undefined-field", "redeclared-short-var", "unused-variable", "undefined", "arity-mismatch", "other:"}, `encode_decode\.go|types\.go|paths\.go|client\.go`},
+		[]string{"redeclared", "type-mismatch", "undefined-field", "redeclared-short-var", "unused-variable", "undefined", "arity-mismatch", "other:"}, `encode_decode\.go|types\.go|paths\.go|client\.go|cli\.go`},
 }
 
 func contains(xs []string, x string) bool {
